@@ -343,6 +343,7 @@ def check_t3(chk, m, K):
                    "the head is moved to the run queue exactly when (head.duetime - now) <= 0 (test %s, moved %s)" % (test, moved),
                    p.ret_inst.loc, fn.name)
     chk.expect("T3", "expiry decisions in handle_timerq", n, 2)
+    fib.check_iterator_validity(chk, m, K)
 
 
 def _icmp_holds(pred, a, b):
